@@ -113,7 +113,10 @@ def run(ctx, replay):
     # 4. reproduce on the real code: kill / fail at the critical points and look at the file
     experiments = [("kill-at-first-write-to-settings", ["-P", spath, "-e", "trace=write", "-e", "inject=write:signal=KILL:when=1"]),
                    ("kill-at-rename", ["-e", "trace=rename,renameat,renameat2", "-e", "inject=rename,renameat,renameat2:signal=KILL:when=1"]),
-                   ("enospc-on-settings-write", ["-P", spath, "-e", "trace=write", "-e", "inject=write:error=ENOSPC:when=1+"])]
+                   ("enospc-on-settings-write", ["-P", spath, "-e", "trace=write", "-e", "inject=write:error=ENOSPC:when=1+"]),
+                   # the save path may write a temporary file whose name is not known in advance: fail EVERY write of the process
+                   ("enospc-on-every-write", ["-e", "trace=write", "-e", "inject=write:error=ENOSPC:when=1+"]),
+                   ("eio-on-every-write", ["-e", "trace=write", "-e", "inject=write:error=EIO:when=1+"])]
     experiments = [(n, a, "/saveconfig?config=new&h=after", 0) for n, a in experiments]
     if ctx.tier == "thorough":
         # every system call that is specific to the save path, as a kill point and as a failure point; the delete path;
@@ -122,7 +125,7 @@ def run(ctx, replay):
                 ("eperm-on-fchmod", ["-e", "trace=fchmod", "-e", "inject=fchmod:error=EPERM:when=1"]),
                 ("eacces-on-rename", ["-e", "trace=rename,renameat,renameat2", "-e", "inject=rename,renameat,renameat2:error=EACCES:when=1"]),
                 ("eio-on-close-after-fchmod", ["-e", "trace=fchmod,close", "-e", "inject=close:error=EIO:when=40+"]),
-                ("enospc-on-every-write", ["-e", "trace=write", "-e", "inject=write:error=ENOSPC:when=1+"])]
+                ("efbig-on-every-write", ["-e", "trace=write", "-e", "inject=write:error=EFBIG:when=1+"])]
         for n, a in more:
             experiments.append((n, a, "/saveconfig?config=new&h=after", 0))
         for n, a in [experiments[0][:2], experiments[1][:2], more[0], more[2]]:
